@@ -5,23 +5,36 @@ import random
 import re
 import time
 
+import subprocess
+
+import ambient
 from common import REPO, VERIF, GOENV, load_known_findings
 from gencases import BuilderGen, PolicyGen, parse_header, OPS, M32, M64
+
+
+_HOST = []
+
+
+def host_goarch():
+    if not _HOST:
+        _HOST.append(subprocess.run(["go", "env", "GOARCH"], env=GOENV, capture_output=True, text=True, timeout=60).stdout.strip() or "amd64")
+    return _HOST[0]
 
 
 # ------------------------------------------------------------------------------------------------ stream runner
 class Stream:
     """Runs case lines through the real code (harness compile) and the extracted model/specification (driver)."""
 
-    def __init__(self, ctx, harness=None, env=None):
+    def __init__(self, ctx, harness=None, env=None, prefix=None):
         self.ctx = ctx
+        self.prefix = prefix        # e.g. ["setarch", "linux32"]: the process runs under another personality
         self.header = None
         self.raw_verdicts = {}
         self.harness = harness      # None: the host build
         self.env = env
 
     def load_header(self):
-        r = self.ctx.run_harness(["compile"], "", harness=self.harness, env=self.env)
+        r = self.ctx.run_harness(["compile"], "", harness=self.harness, env=self.env, prefix=self.prefix)
         if r.returncode != 0:
             raise RuntimeError("harness compile failed: " + r.stderr[-2000:])
         self.header = r.stdout
@@ -31,7 +44,10 @@ class Stream:
         """lines: list of case lines (B/P followed by their V lines). Returns (cases, summary) where cases maps
         id -> dict(line=annotated line, corr='same'|'DIFF', model=..., go=..., events=[(idx, ok, want, got, vline)])."""
         inp = "\n".join(lines) + "\n"
-        r = self.ctx.run_harness(["compile"], inp, harness=self.harness, env=self.env)
+        try:
+            r = self.ctx.run_harness(["compile"], inp, harness=self.harness, env=self.env, prefix=self.prefix, timeout=300 if self.env else 600)
+        except subprocess.TimeoutExpired:
+            raise RuntimeError("harness compile failed: no exit within the time limit")
         if r.returncode != 0:
             raise RuntimeError("harness compile failed: " + r.stderr[-2000:])
         annotated = r.stdout
@@ -129,7 +145,8 @@ def report_case_failures(ctx, cases, what, scope_filter=None, describe=None):
                 found = model_ok and not go_ok
                 payload = dict(case=c["line"].split(" | ")[0], stream=what, model_result=c.get("model", "")[:4000],
                                go_result=c["go"][:4000],
-                               what=("the implementation refuses (or panics on) an input that the proved model accepts" if found else
+                               what=("a program that Assemble returned earlier was changed by this later compilation (the caller's slice is overwritten)" if c["go"].startswith("CLOBBERED") else
+                                     "the implementation refuses (or panics on) an input that the proved model accepts" if found else
                                      "correspondence: the executable model and the implementation differ on this case; no event was found on which the implementation's program violates the specification"),
                                description=describe(cid) if describe else None)
                 p = ctx.violation("counterexample" if found else "correspondence", payload, found)
@@ -249,7 +266,8 @@ ALIASES = {"X86_64": ["amd64", "x86_64"], "I386": ["386", "i386"], "ARM": ["arm"
 
 
 def policy_stream(ctx, prop, kinds, npol, nev, arches=None, defects=None, le_choices=(0, 1), replay=None,
-                  defect_share=0.0, foreign_share=0.15, extra_cases=None, x32_share=0.0, goarch=None, salt=0, native_endian=False):
+                  defect_share=0.0, foreign_share=0.15, extra_cases=None, x32_share=0.0, goarch=None, salt=0, native_endian=False,
+                  noise=False, prefix=None, native_share=0.12):
     """Generate policies of the given kinds, compile them with the implementation and the model, and run the
     implementation's programs on partition events against the specification. Returns dict with results."""
     rng = random.Random(ctx.seed * 1000003 + int(prop[1:]) + salt)
@@ -259,15 +277,33 @@ def policy_stream(ctx, prop, kinds, npol, nev, arches=None, defects=None, le_cho
         return None
     # native_endian: the harness leaves the byte order as the library determined it for the build (little-endian on the
     # targets this host can run: amd64, 386)
-    st = Stream(ctx, harness=h if goarch else None, env=dict(GOENV, VERIF_NATIVE_ENDIAN="1") if native_endian else None)
+    env = dict(GOENV, VERIF_NATIVE_ENDIAN="1") if native_endian else None
+    if noise:
+        # hostile surroundings: every variable the sources could ask for is set (lib/ambient.py)
+        env = ambient.noise_env(env or GOENV)
+    st = Stream(ctx, harness=h if goarch else None, env=env, prefix=prefix)
     if native_endian:
         le_choices = (1,)
     consts, arches_tbl = st.load_header()
+    # the architecture the library picks when none is named is the build's GOARCH (arch.GetInfo("")), whatever the
+    # kernel, the personality or the environment say
+    want = ambient.EXPECTED_NATIVE.get(goarch or host_goarch())
+    if want and want in arches_tbl:
+        nat = arches_tbl.get("NATIVE")
+        if nat is None or any(nat[k] != arches_tbl[want][k] for k in ("id", "mask", "table")):
+            ctx.violation("counterexample", dict(
+                what="arch.GetInfo(\"\") of a %s build does not resolve to the %s record" % (goarch or "host (%s)" % host_goarch(), want),
+                goarch=goarch or "host", noise=bool(noise), prefix=prefix or [],
+                got=None if nat is None else dict(id=nat["id"], mask=nat["mask"], names=len(nat["table"])),
+                want=dict(id=arches_tbl[want]["id"], mask=arches_tbl[want]["mask"], names=len(arches_tbl[want]["table"])),
+                environment={k: v for k, v in (env or {}).items() if k not in os.environ or os.environ[k] != v} if noise else {},
+                replay_hint="run `%sharness compile </dev/null` (built with GOARCH=%s) and read the A NATIVE line" % (" ".join(prefix or []) + " " if prefix else "", goarch or "host")), True)
+            return None
     pg = PolicyGen(rng, consts, arches_tbl)
     lines = []
     meta = {}
     dist = {}
-    if replay:
+    if replay and replay.get("case"):
         lines = [replay["case"]] + ([replay["event"]] if replay.get("event") else [])
     else:
         lines += load_corpus(prop)
@@ -285,11 +321,13 @@ def policy_stream(ctx, prop, kinds, npol, nev, arches=None, defects=None, le_cho
             dist[key] = dist.get(key, 0) + 1
             atok = an
             r = rng.random()
-            if r < 0.12 and an in arches_tbl and "NATIVE" in arches_tbl and arches_tbl["NATIVE"]["id"] == arches_tbl[an]["id"] and arches_tbl["NATIVE"]["mask"] == arches_tbl[an]["mask"]:
+            if r < native_share and an in arches_tbl and "NATIVE" in arches_tbl and arches_tbl["NATIVE"]["id"] == arches_tbl[an]["id"] and arches_tbl["NATIVE"]["mask"] == arches_tbl[an]["mask"]:
                 atok = "NATIVE"      # the library resolves the architecture itself (public API path)
-            elif r < 0.24:
+            elif r < native_share + 0.12:
                 atok = "%s>%s" % (rng.choice([a for a in PolicyGen.TABLE_ARCHES if a != an]), an)   # same value assembled for another architecture first
-            elif r < 0.32 and an in ALIASES:
+            elif r < native_share + 0.17:
+                atok = "S>%s" % an       # the exported SyscallGroup.Assemble is called on the value's groups first
+            elif r < native_share + 0.25 and an in ALIASES:
                 sp = "".join(ch.upper() if rng.random() < 0.3 else ch for ch in rng.choice(ALIASES[an]))
                 atok = "G:%s>%s" % (sp, an)          # looked up by (documented) name through arch.GetInfo
             meta[cid]["arch_token"] = atok
@@ -332,8 +370,74 @@ def policy_stream(ctx, prop, kinds, npol, nev, arches=None, defects=None, le_cho
             dist[m.get("kind", "extra")] = dist.get(m.get("kind", "extra"), 0) + 1
             lines.append(line)
             lines += evs
-    cases, summary = st.run(lines)
+    try:
+        cases, summary = st.run(lines)
+    except RuntimeError as e:
+        if "harness compile failed" not in str(e):
+            raise
+        # the compiling process died: find one policy on which it does (each case in a process of its own)
+        groups = []
+        for ln in lines:
+            if ln.startswith("P ") or ln.startswith("B "):
+                groups.append([ln])
+            elif groups:
+                groups[-1].append(ln)
+        envdiff = {k: v for k, v in (env or {}).items() if os.environ.get(k) != v} if noise else {}
+        for i, g in enumerate(groups[:400]):
+            tok = g[0].split(" ", 4)[3] if len(g[0].split(" ", 4)) > 3 else ""
+            pre = [groups[i - 1][0]] if tok.startswith("@") and i else []
+            try:
+                r = ctx.run_harness(["compile"], "\n".join(pre + g[:1]) + "\n", harness=st.harness, env=st.env, prefix=st.prefix, timeout=60)
+                rc, tail = r.returncode, (r.stderr[:700] + " ... " + r.stderr[-700:]) if len(r.stderr) > 1500 else r.stderr
+            except subprocess.TimeoutExpired:
+                rc, tail = "none within 60 s", ""
+            if rc != 0:
+                ctx.violation("counterexample", dict(
+                    what="the process compiling this policy dies or hangs (exit status: %s) instead of returning a program or an error" % rc,
+                    case=g[0], previous_case=pre, stderr=tail, goarch=goarch or "host", noise=bool(noise), prefix=prefix or [],
+                    environment=envdiff, meta=meta.get(g[0].split(" ", 2)[1])), True)
+                return None
+        ctx.violation("broken-obligation", dict(what="the harness dies on the whole stream but on no single case of the first 400", log=str(e)[-2000:],
+                                                goarch=goarch or "host", noise=bool(noise), prefix=prefix or [], environment=envdiff), False)
+        return None
     return dict(cases=cases, summary=summary, meta=meta, dist=dist, consts=consts, arches=arches_tbl, stream=st)
+
+
+def ambient_passes(ctx, prop, kinds, replay=None, npol=(40, 300), nev=10, **kw):
+    """The same kinds of policies compiled by processes in hostile surroundings: every environment variable the sources
+    could ask for is set (lib/ambient.py), the kernel reports another machine and release (setarch), the binary is a 32-bit
+    build on this 64-bit kernel; a third of the policies leave the architecture to the library. The programs must still
+    be the model's."""
+    pres = ambient.personality_prefixes()
+    combos = [(None, None), ("386", None)] + ([(None, pres[0]), ("386", pres[1])] if pres else [])
+    n = npol[0] if ctx.tier == "quick" else npol[1]
+    total = dict(programs=0, events=0, combos=[])
+    for ci, (ga, pre) in enumerate(combos):
+        label = "%s build, hostile environment%s" % (ga or "host", ", run under `%s`" % " ".join(pre) if pre else "")
+        if replay and replay.get("ambient") != label:
+            continue
+        before = len(ctx.violations)
+        res = policy_stream(ctx, prop, kinds, n, nev, goarch=ga, salt=9100 + ci, replay=replay, native_endian=True, noise=True, prefix=pre,
+                            native_share=0.35, **kw)
+        if res is not None:
+            ndiff, nbad = report_case_failures(ctx, res["cases"], "policies compiled by a %s (%s)" % (label, prop),
+                                               describe=lambda cid: dict(res["meta"].get(cid) or {}, ambient=label))
+            total["programs"] += int(res["summary"]["cases"])
+            total["events"] += int(res["summary"]["events"])
+            ctx.coverage["evaluations"] = ctx.coverage.get("evaluations", 0) + int(res["summary"]["cases"]) + int(res["summary"]["events"])
+            ctx.coverage["counterexamples"] = ctx.coverage.get("counterexamples", 0) + nbad
+            ctx.coverage["correspondence_differences"] = ctx.coverage.get("correspondence_differences", 0) + ndiff
+        for path, _ in ctx.violations[before:]:
+            with open(path) as f:
+                body = json.load(f)
+            body["ambient"] = label
+            body["goarch"] = ga or "host"
+            body["native_endian"] = True
+            with open(path, "w") as f:
+                json.dump(body, f, indent=1, sort_keys=True)
+                f.write("\n")
+        total["combos"].append(label)
+    ctx.coverage["hostile_surroundings"] = dict(total, variables=sorted(set(ambient.discover_names()) | set(ambient.FIXED)))
 
 
 def policy_coverage(ctx, res, rule, nontrivial):
@@ -360,7 +464,7 @@ def policy_coverage(ctx, res, rule, nontrivial):
 
 
 def check_core_policy(ctx, prop, prop_file, theorems, kinds, rule, replay=None, npol=(400, 4000), nev=(40, 80),
-                      gen=None, diff_filter=None, **kw):
+                      gen=None, diff_filter=None, ambient_kinds=None, **kw):
     proof_step(ctx, prop_file, theorems, gen=gen)
     q = ctx.tier == "quick"
     res = policy_stream(ctx, prop, kinds, npol[0] if q else npol[1], nev[0] if q else nev[1], replay=replay, **kw)
@@ -376,6 +480,9 @@ def check_core_policy(ctx, prop, prop_file, theorems, kinds, rule, replay=None, 
     policy_coverage(ctx, res, rule, lambda cid, c: c["go"].startswith("OK") and len(c["events"]) > 0)
     ctx.coverage["correspondence_differences"] = ndiff
     ctx.coverage["counterexamples"] = nbad
+    if ambient_kinds and not (replay and not replay.get("ambient")):
+        ambient_passes(ctx, prop, ambient_kinds, replay=replay if replay and replay.get("ambient") else None,
+                       **{k: v for k, v in kw.items() if k in ("arches", "x32_share", "foreign_share")})
     finish_with_proof_status(ctx, nbad, "%s theorems" % prop)
     return res
 
@@ -390,7 +497,7 @@ def check_C01(ctx, replay=None):
                                             "C01_source_return_value_is_the_model", "C01_source_policy_is_the_model"],
                       ["names", "names", "names", "names_long", "names_long", "whole_table", "degenerate", "degenerate", "mixed", "cond"],
                       "name-only policies (1..6 groups, 0..|table| names, all four tables, both byte orders) and, at a share of one in five, policies whose groups also hold conditional entries (an entry whose conditions fail does not list the syscall: a later group does), compiled by the implementation and the extracted model (instruction-exact comparison); every accepted program run on partition events (numbers of all listed names +-1, boundary numbers, foreign architectures) against the extracted decide; non-trivial = accepted policy with events evaluated",
-                      replay=replay, gen=gen)
+                      replay=replay, gen=gen, ambient_kinds=["names", "mixed"])
 
 
 CHECKS.update({"C01": check_C01})
@@ -513,7 +620,7 @@ def check_C04(ctx, replay=None):
                       ["names", "names_long", "names_long", "names_long", "cond", "mixed", "mixed_long", "condlong", "degenerate", "whole_table"],
                       "policies of every kind sized so that the architecture jump distance straddles 255/256 (name lists of 245..260 and longer, conditional entries), all four tables and the x32 table (same audit word as x86_64: the guard applies); compared with the extracted model on the prologue, the instruction the architecture jump lands on and the x32 guard; every accepted program run ONLY on events of a foreign architecture (all audit ids of the package, bit flips of the native id, random words) and, natively, numbers with the x32 bit (0x40000000, |n, 0xFFFFFFFF, ...) or just below it, against the extracted decide; non-trivial = accepted policy with events evaluated",
                       replay=replay, npol=(400, 4000), nev=(40, 80), foreign_share=0.6, x32_share=0.4, diff_filter=differs, gen=gen,
-                      arches=PolicyGen.TABLE_ARCHES * 2 + ["X32"], extra_cases=_c04_extras)
+                      arches=PolicyGen.TABLE_ARCHES * 2 + ["X32"], extra_cases=_c04_extras, ambient_kinds=["names", "cond", "names_long"])
 
 
 # ------------------------------------------------------------------------------------------------ C05
@@ -772,6 +879,10 @@ def check_C07(ctx, replay=None):
     ctx.coverage["input_distribution"]["outcome_by_defect"] = classes
     ctx.coverage["correspondence_differences"] = ndiff
     ctx.coverage["counterexamples"] = nbad
+    if not replay or replay.get("ambient"):
+        # valid policies are accepted (and nothing dies) whatever the process environment holds
+        ambient_passes(ctx, "C07", ["names", "cond", "mixed", "degenerate"], replay=replay if replay and replay.get("ambient") else None, nev=0)
+        nbad = ctx.coverage.get("counterexamples", nbad)
     finish_with_proof_status(ctx, nbad, "C07 theorems")
 
 
